@@ -8,6 +8,13 @@ import common
 
 def main():
     prop, tier, seed, scratch = sys.argv[1], sys.argv[2], int(sys.argv[3]), sys.argv[4]
+    # warm-up, serially: ply generates parser_FormulaParser_parsetab.py in the snapshot when it is missing
+    # (the file is not tracked by git); parallel workers must not race on writing it
+    import contextlib
+    import io
+    with contextlib.redirect_stderr(io.StringIO()):
+        import hotxlfp
+        hotxlfp.Parser()
     mod = importlib.import_module('props.' + prop)
     if len(sys.argv) > 5 and sys.argv[5] == '--replay':
         return common.run_replay(mod, sys.argv[6])
